@@ -434,6 +434,14 @@ int BaseKillPlugin::getAndTryToKillPids(const CgroupContext& target) {
   errno = 0;
   while ((read = ::getline(&line, &len, fp)) != -1) {
     OCHECK(line != nullptr);
+    if (read == 0 || line[read - 1] != '\n') {
+      // Every line of cgroup.procs ends in a newline. One that doesn't was cut
+      // short by a read error: its digits are the prefix of a pid, i.e. the
+      // pid of some process that need not be in this cgroup at all.
+      OLOG << "Incomplete line in " << Fs::kProcsFile << " of "
+           << target.cgroup().relativePath() << ", ignoring it";
+      break;
+    }
     pids.push_back(std::stoi(line));
     if (pids.size() == streamSize) {
       nrKilled += tryToKillPids(pids);
